@@ -322,6 +322,67 @@ def h_entries():
     return ['entries', omit]
 
 
+ORDER_LISTS = {'encr': (['aes256', 'aes128'], ['aes128', 'aes256'], ['aes128', 'aes128'], ['aes128']),
+               'integ': (['sha512', 'sha1'], ['sha1', 'sha512'], ['sha1', 'sha1', 'sha512']),
+               'dh': (['ecp256', 'modp2048'], ['modp2048', 'ecp256'], ['ecp256'])}
+
+
+def h_orders():
+    """two algorithm lists of the same kind in ONE configuration (IKE level and protect entry, or two protect entries, or two connections) with the
+    same set of names in another order / with repetitions: each proposal lists exactly its own names in its own order (differential: the second
+    list is loaded as it is when the first one is absent)"""
+    import copy
+    from symx import core
+    from ipaddress import ip_address
+    eng = core.engine()
+    cf = MODS['configuration']
+    kind = choose(eng, 'kind', sorted(ORDER_LISTS))
+    l1 = choose(eng, 'first_list', ORDER_LISTS[kind])
+    l2 = choose(eng, 'second_list', ORDER_LISTS[kind])
+    where = choose(eng, 'where', ['ike_then_protect', 'two_protect_entries', 'two_connections'])
+
+    def build(with_first):
+        d = base_dict()
+        d['conn1']['protect'][0].pop(kind, None)
+        if kind != 'dh':
+            d['conn1'].pop(kind, None)
+        if where == 'ike_then_protect':
+            if with_first:
+                d['conn1'][kind] = list(l1)
+            d['conn1']['protect'][0][kind] = list(l2)
+            pick = lambda c: c.ike_configurations[(ip_address('192.0.2.1'), ip_address('192.0.2.2'))].protect[0].proposal
+        elif where == 'two_protect_entries':
+            e1 = copy.deepcopy(d['conn1']['protect'][0]); e1['index'] = 8
+            e2 = copy.deepcopy(d['conn1']['protect'][0]); e2['index'] = 9
+            if with_first:
+                e1[kind] = list(l1)
+            e2[kind] = list(l2)
+            d['conn1']['protect'] = [e1, e2]
+            pick = lambda c: c.ike_configurations[(ip_address('192.0.2.1'), ip_address('192.0.2.2'))].protect[1].proposal
+        else:
+            d['conn2'] = copy.deepcopy(d['conn1'])
+            d['conn2']['peer_addr'] = '192.0.2.3'
+            if with_first:
+                d['conn1'][kind] = list(l1)
+            d['conn2'][kind] = list(l2)
+            pick = lambda c: c.ike_configurations[(ip_address('192.0.2.1'), ip_address('192.0.2.3'))].proposal
+        return d, pick
+    try:
+        d_both, pick = build(True)
+        d_alone, _ = build(False)
+        both = cf.Configuration([ip_address('192.0.2.1')], d_both)
+        alone = cf.Configuration([ip_address('192.0.2.1')], d_alone)
+    except cf.ConfigurationError:
+        return ['orders', 'rejected']
+    except Exception as ex:      # noqa
+        return {'class': ['orders'], 'violation': f'{kind} lists {l1} / {l2} ({where}): loading failed with {type(ex).__name__}: {ex}'}
+    tr = lambda p: [(int(t.type), int(t.id), t.keylen) for t in p.transforms]
+    if tr(pick(both)) != tr(pick(alone)):
+        return {'class': ['orders'], 'violation': f'{where}: after the {kind} list {l1} the later list {l2} is loaded as {tr(pick(both))}, alone it is loaded as '
+                                                  f'{tr(pick(alone))} (order / repetitions follow the earlier list)'}
+    return ['orders', 'loaded']
+
+
 RESOLVER = {'one4': ['192.0.2.1'], 'other4': ['192.0.2.77'], 'dual46': ['192.0.2.1', '2001:db8::1'], 'dual64': ['2001:db8::1', '192.0.2.1'],
             'multi': ['192.0.2.77', '192.0.2.1'], 'multi3': ['198.51.100.9', '192.0.2.77', '192.0.2.1'], 'dup': ['192.0.2.1', '192.0.2.1', '192.0.2.77'],
             'nothing': None}
@@ -377,6 +438,8 @@ def h_resolve():
 def build_instances(tier):
     inst = []
     nat = common.native_of
+    inst.append(Instance('two algorithm lists of one kind in different order', h_orders, (), native=nat(h_orders), engine_kw={'max_ticks': 10 ** 7},
+                         must_reach=[('loaded', lambda o: o == ['orders', 'loaded'])]))
     inst.append(Instance('second protect entry omitting keys', h_entries, (), native=nat(h_entries), engine_kw={'max_ticks': 10 ** 7}))
     inst.append(Instance('host names, resolver answers and listening sets', h_resolve, (), native=nat(h_resolve), engine_kw={'max_ticks': 10 ** 7},
                          must_reach=[('rejected', lambda o: o == ['resolve', 'ConfigurationError']), ('loaded', lambda o: o == ['resolve', 'loaded'])]))
